@@ -39,7 +39,19 @@ def sources(tier, seed, ctx):
                      'storage': rng.choice(['built', 'built', 'shuffled']),
                      # minimise the result of the first call once more (its storage order is not topological any more)
                      'twice': rng.random() < 0.25, 'ss': rng.randrange(10**6)})
-    ctx['gen_note'] = f'{n} minimize_subcircuits calls (a quarter of them twice in a row)'
+    # wide cuts: 6 and 7 leaves (beyond the default cut_size), cones that are wide AND-OR-XOR trees over 7 inputs so that a
+    # 7-leaf cut exists and a smaller equivalent is found quickly; the solver runs under a time limit
+    for j in range(6 if tier == 'quick' else 40):
+        ops = [rng.choice(['AND', 'OR', 'XOR', 'NAND']) for _ in range(6)]
+        order = list(range(1, 8))
+        rng.shuffle(order)
+        gs = [[ops[0], [order[0], order[1]]]] + [[ops[k], [7 + k, order[k + 1]]] for k in range(1, 6)]
+        # a redundant tail so that something can be saved: the chain output combined with one of its own leaves
+        gs.append([rng.choice(['AND', 'OR']), [13, order[rng.randrange(7)]]])
+        srcs.append({'net': [7, gs], 'outs': [14], 'basis': rng.choice(['XAIG', 'FULL', 'AIG']), 'basis_enum': False, 'validation': j % 2 == 0,
+                     'max_size': 8, 'cut_size': 7 if j % 3 else 6, 'cut_limit': 25, 'time_limit': 8, 'hashseed': rng.choice([0, 7]), 'cutseed': 0,
+                     'storage': 'built', 'twice': False, 'ss': 0, 'wide': True})
+    ctx['gen_note'] = f'{n} minimize_subcircuits calls (a quarter of them twice in a row), wide cuts (6-7 leaves)'
     return srcs
 
 
